@@ -158,6 +158,7 @@ type Unit struct {
 	entryPC       []Term
 	usesLocks     bool
 	knownLits     map[string]*litInfo
+	methodConsts  map[string]bool
 	inputConst    string
 	inputKind     string
 	ghosts        map[string]types.Object
